@@ -120,4 +120,3 @@ func JudgeAssignment(cl ClusterSpec, s SvcSpec, as []netip.Addr, pre Holders, ho
 	}
 	return nil
 }
-
